@@ -25,4 +25,13 @@ cOldPaths == {P1("a"), P1("b"), P1("*"), P1("z"), P1("a "), P2("a", "b"), P2("a"
 cOldPaths3 == {P1("a"), P1("b")}
 cNewPaths3 == {<<"p", "q">>, <<"p", "w", "q">>, <<"p", "r">>, <<"s">>}
 cNewPaths == {<<"p">>, <<"q">>, <<"p", "r">>, <<"q", "p">>, <<"a">>, <<"p", "a", "r">>, <<"p", "b", "r">>, <<"p", "p">>, <<"p", "p", "r">>, <<" p">>, <<"p", "", "r">>}   \* (a name repeated along one new path; names with white space at an edge are taken literally)
+\* placeholder alphabets (check.py SUBST): "~" becomes a 36-byte name that begins with a two-byte character, "^" a 4.2 KiB value
+cScalarsLong == {VS("x"), VS("^")}
+cOldPathsLong == {P1("a"), P1("~"), P2("a", "~"), P2("~", "a"), <<PK("~", 0)>>, <<PK("~", 1), PK("a", -1)>>}
+cNewPathsLong == {<<"~">>, <<"p", "~">>, <<"~", "~">>, <<"q">>}
+\* null members: the value at a new path is what the old path yields, nulls included
+cScalarsNil == {VS("x"), VNil}
+cOldPathsNil == {P1("a"), P2("a", "b"), <<PK("a", 0)>>, <<PK("a", 1)>>, <<PK("a", 0), PK("b", -1)>>}
+cNewPathsNil == {<<"p">>, <<"q", "r">>}
+
 =============================================================================
